@@ -26,12 +26,12 @@ pub struct C11;
 /// Named tolerance switch for finding C11-a (`PartialEq<str> for JsStr`): when on (and not in
 /// strict replay mode) a str comparison that deviates from the model EXACTLY as the known
 /// defective algorithm does is counted (label `excluded-known-str-eq`) instead of failing.
-const TOLERATE_KNOWN_STR_EQ: bool = true;
+const TOLERATE_KNOWN_STR_EQ: bool = false;
 const KNOWN_STR_EQ_SIG: &str = "PartialEq<str> for JsStr";
 /// Named tolerance switch for findings C11-c/C11-d (`to_number` on `0x+1` / `-inf`): strings that
 /// contain exactly these constructs are not compared with the StringToNumber model (label
 /// `excluded-known-to-number`); agreement across constructors is still required.
-const TOLERATE_KNOWN_TO_NUMBER: bool = true;
+const TOLERATE_KNOWN_TO_NUMBER: bool = false;
 
 struct Fail {
     c1: String,
